@@ -334,6 +334,44 @@ def random_history(run, rng):
         run.hdo(good_hybrid(rng, nefi))
 
 
+def directed_histories():
+    """Minimised histories of the defects repaired so far (07829f6, 09176f7, b44c076+ed6ec41, d0ed30b, 9b70343) and of the
+    seeded changes C12I/J: they run first in every check."""
+    boot = (b'BOOT.;1',)
+    H = lambda pe=1, po=0, gs=32, gh=64, mac=False, efi=None: ('AddHybrid', pe, 7, po, gs, gh, None, mac, efi)  # noqa: E731
+    base = [('AddSigFile', (), b'BOOT.;1', 2048), abt.el(boot, ls=4)]
+    efi1 = [('AddFile', (), b'EA.;1', 4096), abt.el((b'EA.;1',), efi=True)]
+    mac1 = [('AddFile', (), b'MAC.;1', 6144), abt.el((b'MAC.;1',), efi=True)]
+    return [
+        ('two-names-mac', base + efi1 + [('AddLink', (b'EA.;1',), (), b'EB.;1')] + mac1 + [H(mac=True, efi=True), ('Write',)]),
+        ('three-efi-mac', base + efi1 + mac1 + [('AddFile', (), b'TOOLS.;1', 20000), abt.el((b'TOOLS.;1',), efi=True),
+                                                H(mac=True, efi=True), ('Write',)]),
+        ('efi-added-after-mac-hybrid', base + efi1 + mac1 + [H(mac=True, efi=True), ('Write',), ('AddFile', (), b'TOOLS.;1', 20000),
+                                                             abt.el((b'TOOLS.;1',), efi=True), ('Write',)]),
+        ('second-platform-0-section', base + [('AddSigFile', (), b'ZBOOT.;1', 2048), abt.el((b'ZBOOT.;1',), ls=4), H(), ('Write',)]),
+        ('efi-entry-on-the-boot-file', base + [abt.el(boot, ls=4, efi=True), H(efi=True), ('Write',)]),
+        ('plain-hybrid-with-efi-section', base + efi1 + [H(), ('Write',)]),
+        ('efi-only-hybrid-two-efi-sections', base + efi1 + mac1 + [H(efi=True), ('Write',)]),
+        ('hybrid-then-rm-eltorito', base + efi1 + [H(efi=True), ('RmEltorito',), ('Write',)]),
+        ('part-entry-refusals', base + efi1 + mac1 + [H(pe=2, efi=True), H(pe=3, mac=True, efi=True), H(pe=0), H(pe=5),
+                                                      H(pe=4, mac=True, efi=True), ('Write',)]),
+        ('grow-between-writes', base + efi1 + [H(efi=True), ('Write',), ('AddFile', (), b'ZZZ.;1', 3000000), ('Write',),
+                                               ('AddDir', (), b'D'), ('Write',)]),
+        ('offset-geometry', base + [H(po=1), ('Write',), ('RmHybrid',), H(pe=4, po=64, gs=63, gh=255), ('Write',)]),
+    ]
+
+
+def directed_cases():
+    out = []
+    for label, ops in directed_histories():
+        random.seed('hh-lib-directed-' + label)
+        run = HRunner()
+        for o in ops:
+            run.hdo(o)
+        out.append(run.hcase('directed:' + label))
+    return out
+
+
 def cases(seed, n):
     out = []
     for k in range(n):
